@@ -2,13 +2,12 @@
    same lookup function, so differentiable / non-differentiable splitting is determined extensionally. *)
 From Coq Require Import List ZArith Bool Arith Lia Sorted.
 Import ListNotations.
-Require Import C14.Types C14.Model.
+Require Import C14.Types C14.gen.Ctors C14.Model C14.Wf.
 
 Section Assoc.
 Context {V : Type}.
 Implicit Types (l : list (Z * V)) (x : Z * V) (k : Z).
 
-Definition keys l : list Z := map fst l.
 Definition ltk (a b : Z * V) : Prop := (fst a < fst b)%Z.
 Definition ss l : Prop := StronglySorted ltk l.
 
@@ -145,12 +144,7 @@ Proof.
   - rewrite IH by auto. destruct (Z.eqb_spec k k'); [subst; now rewrite HN, Pv|auto].
 Qed.
 
-(* boolean strict sortedness of a key list *)
-Fixpoint ssortedb (ks : list Z) : bool :=
-  match ks with
-  | [] => true
-  | x :: r => match r with [] => true | y :: _ => Z.ltb x y && ssortedb r end
-  end.
+(* boolean strict sortedness of a key list (Wf.ssortedb) *)
 Lemma ssortedb_lt (z : Z) (zs : list Z) : ssortedb (z :: zs) = true -> forall k, In k zs -> (z < k)%Z.
 Proof.
   revert z; induction zs as [|y r IH]; intros z H k Hk; [destruct Hk|].
